@@ -44,14 +44,16 @@ impl<'a> UnaryIter<'a> {
     pub fn skip1(&mut self, k: usize) -> Option<usize> {
         let mut skipped = 0;
         let mut buf = self.buf;
+        // NOTE: The cursor is moved only when a position is found.
+        let mut pos = self.pos;
         loop {
             let w = broadword::popcount(buf);
             if skipped + w > k {
                 break;
             }
             skipped += w;
-            self.pos += WORD_LEN;
-            let word_pos = self.pos / WORD_LEN;
+            pos += WORD_LEN;
+            let word_pos = pos / WORD_LEN;
             if self.bv.num_words() <= word_pos {
                 return None;
             }
@@ -60,7 +62,7 @@ impl<'a> UnaryIter<'a> {
         debug_assert!(buf != 0);
         let pos_in_word = broadword::select_in_word(buf, k - skipped).unwrap();
         self.buf = buf & usize::MAX.wrapping_shl(pos_in_word as u32);
-        self.pos = (self.pos & !(WORD_LEN - 1)) + pos_in_word;
+        self.pos = (pos & !(WORD_LEN - 1)) + pos_in_word;
         Some(self.pos)
     }
 
@@ -83,14 +85,16 @@ impl<'a> UnaryIter<'a> {
         let mut skipped = 0;
         let pos_in_word = self.pos % WORD_LEN;
         let mut buf = !self.buf & usize::MAX.wrapping_shl(pos_in_word as u32);
+        // NOTE: The cursor is moved only when a position is found.
+        let mut pos = self.pos;
         loop {
             let w = broadword::popcount(buf);
             if skipped + w > k {
                 break;
             }
             skipped += w;
-            self.pos += WORD_LEN;
-            let word_pos = self.pos / WORD_LEN;
+            pos += WORD_LEN;
+            let word_pos = pos / WORD_LEN;
             if self.bv.num_words() <= word_pos {
                 return None;
             }
@@ -98,9 +102,13 @@ impl<'a> UnaryIter<'a> {
         }
         debug_assert!(buf != 0);
         let pos_in_word = broadword::select_in_word(buf, k - skipped).unwrap();
+        let pos = (pos & !(WORD_LEN - 1)) + pos_in_word;
+        if self.bv.num_bits() <= pos {
+            return None;
+        }
         self.buf = !buf & usize::MAX.wrapping_shl(pos_in_word as u32);
-        self.pos = (self.pos & !(WORD_LEN - 1)) + pos_in_word;
-        Some(self.pos).filter(|&x| x < self.bv.num_bits())
+        self.pos = pos;
+        Some(self.pos)
     }
 }
 
